@@ -12,6 +12,14 @@ Oracle  the decidable Spec (ColOk) evaluated by the Lean driver on what the IMPL
         and run under evalC (quick), and the values printed by the g++-compiled job (thorough).  An operand's C++ type
         is the type of the expression the implementation reads it from: a count read off `c->size()` is a std::size_t
         (Spec.lean `evalX`, = evalC when there is no such operand: theorem evalX_conservative).
+Text    lean/FaxVerif/C13/Text.lean: how a C++ compiler READS an emitted text - `lex` (maximal-munch tokens), `pExpr` (C++
+        operator precedence), `PT.toCE` (operands through the operand table) = `readCpp`.  It is the reader of the
+        oracle (the implementation's texts: `ill` = a token accident / syntax error, judged as code without a value;
+        `unk` = outside the subset, never a verdict), and the subject of the theorems text_lex / text_parse /
+        text_read / text_denotes: the rendering of every expression the translator builds reads back as that tree.
+        The correspondence compares TREES when texts differ (redundant parentheses, spaces are not the property's subject).
+Stmt    conditionals whose arms need statements (First(), Sum()) inside arithmetic are judged on the values of the
+        g++-compiled execute() body in BOTH tiers (one small translation unit).
 """
 from __future__ import annotations
 
@@ -23,7 +31,7 @@ from c13_lib import exprs as X
 from c13_lib import pyref, real, tables
 
 ID = "C13"
-LEAN_MODULES = ["FaxVerif.C13.Theorems"]
+LEAN_MODULES = ["FaxVerif.C13.Theorems", "FaxVerif.C13.TextTheorems"]
 LEAN_SOURCES = ["FaxVerif/C13", "FaxVerif/Generated/C13Tables.lean"]
 DRIVER = "FaxVerif/C13/Driver.lean"
 THEOREMS = [
@@ -38,6 +46,10 @@ THEOREMS = [
         "mod_float_counterexample", "neg_bool_counterexample", "not_real_is_bool",
         "not_real_then_div_refused", "cond_int_counterexample", "max_int_counterexample", "mod_negative_differs",
         "evalX_conservative", "storeX_conservative", "evalCondX_conservative", "size_cast_int", "unsigned_count_differs",
+        # the text side (Text.lean / TextLex.lean / TextParse.lean / TextTheorems.lean)
+        "text_tables_known", "translate_opsOk", "text_lex", "text_parse", "text_read", "text_norm_meaning", "text_denotes",
+        "text_setVar_wf", "lex_render", "lex_render_no_incdec", "scan_append", "parse_toks", "toCE_toPT", "toCE_toPT_gen", "read_toks",
+        "text_minus_minus_counterexample", "text_unary_unbracketed_counterexample", "text_precedence_counterexample",
     ]
 ]
 RULE = (
@@ -49,7 +61,12 @@ RULE = (
     "consumers that tell a signed integer from anything else: /, a real partner, **, comparisons also with negative literals, "
     "conditional test and arm, int and double columns) and the LITERAL-WIDTH family (integer literals 2^31-1 .. 2^40+1 and "
     "negations next to every integer operand spelling under /, comparisons, reals, conditionals, folds, %), both also as a "
-    "third of the terms of further random trees; each case is one full "
+    "third of the terms of further random trees; the TEXT family (unary - / + / not over every shape of operand text - "
+    "positive and negative integer constants, float constants also in exponent notation, accessors, counts, bracketed "
+    "compounds, cast quotients, powers, other unaries - as right and left operand of binary - + * /, of comparisons, of **, "
+    "under another unary, in conditionals and folds: every place where a sign is written next to a sign); conditionals used "
+    "inside arithmetic; conditionals whose arms need statements (First(), Sum()) inside arithmetic, run as compiled code; "
+    "each case is one full "
     "query through the real translator, evaluated on 5-6 sample rows (negatives, zeros, dyadic reals; non-negative rows "
     "for %). A case is non-trivial when it has an operator and is accepted; distinct = distinct query text."
 )
@@ -62,7 +79,12 @@ TRUSTED_BASE = [
     "a count off a collection's size()",
     "Python semantics (evalPy), validated against CPython on every sample of every run",
     "the translator tools/c13_lib/tables.py (Python ast -> Lean tables), the readers of query.cxx/query.h in "
-    "tools/c13_lib/real.py, the Lean-side parser of the emitted expression text (Driver.lean)",
+    "tools/c13_lib/real.py",
+    "the C++ lexical and expression grammar as written in Text.lean (lex: identifiers, pp-numbers with the e+/e- rule, the "
+    "punctuators with longest match; pExpr: postfix > unary > * / % > + - > shifts > relational > equality > & ^ | && ||, "
+    "left-associative; ++/-- are ill-formed on anything an emitted expression contains): used to read the implementation's "
+    "texts and as the statement of the text theorems; cross-checked against g++ on every accepted case in the thorough tier "
+    "and on the statement-arm family in both tiers",
     "func_adl's rewriting of Count/Sum/Max/Min into Aggregate(0, ...) (observed through the real pipeline, not modelled)",
 ]
 ASSUMPTIONS = [
@@ -183,7 +205,94 @@ def table_cases(thorough: bool = True) -> List[Tuple[str, str, Dict[str, Any]]]:
     ):
         for f in X.row_forms(cols):
             out.append(("multi-column", "evt", f))
-    out += sign_cases(thorough) + wide_cases(thorough) + not_cases()
+    out += sign_cases(thorough) + wide_cases(thorough) + not_cases() + text_cases(thorough) + condx_cases(thorough)
+    return out
+
+
+def text_cases(thorough: bool = True) -> List[Tuple[str, str, Dict[str, Any]]]:
+    """TEXT: a sign directly next to a sign.  A unary `-` / `+` / `not` over every shape of operand text (a positive and
+    a negative integer constant, float constants also in exponent notation, an accessor, a count, a bracketed compound,
+    a cast quotient, a power, another unary) placed where the character before or after it is an operator character:
+    as right and left operand of binary `-` `+` `*` `/`, of comparisons, as argument of `**`, under another unary.
+    What is emitted has to be read by a C++ compiler (maximal-munch tokens: `--`, `++`, `->`, `<=`, `1e-05`; C++
+    precedence) as the tree Python evaluates."""
+    out = []
+    for level in ("jet", "evt") if thorough else ("jet",):
+        d, i, i2, d2 = X.leaf(level, "d"), X.leaf(level, "i"), X.leaf(level, "i2"), X.leaf(level, "d2")
+        xs = [
+            X.int_lit(5), X.flt_lit(2.5), X.flt_lit(1e-05), d, X.binop("Sub", d, i2), X.neg_lit(3),
+            X.binop("Div", i, X.int_lit(2)), X.unop("USub", d2),
+        ]
+        if thorough:
+            xs += [i, X.binop("Mult", d2, X.int_lit(3)), X.binop("Pow", d, X.int_lit(2)), X.unop("UAdd", X.flt_lit(0.5)), X.int_lit(2**31)]
+        if level == "evt":
+            xs += [X.count_leaf("J1"), X.binop("Sub", X.count_leaf("J1"), X.int_lit(5)), X.sum_leaf("d")]
+        ls = [d, X.int_lit(3)] if thorough and level == "jet" else [d]
+        for x in xs:
+            for uop in ("USub", "UAdd"):
+                u = X.unop(uop, x)
+                for l in ls:
+                    for bop in ("Sub", "Add", "Mult", "Div"):
+                        out.append(("text", level, X.form_plain(X.binop(bop, l, u))))
+                    for bop in ("Sub", "Add") + (("Mult", "Div") if thorough else ()):
+                        out.append(("text", level, X.form_plain(X.binop(bop, u, l))))
+                    for cop in ("Lt", "GtE", "Eq") if thorough else ("Lt",):
+                        out.append(("text", level, X.form_plain(X.cmpop(cop, l, u))))
+                        out.append(("text", level, X.form_plain(X.cmpop(cop, u, l))))
+                out.append(("text", level, X.form_plain(X.unop("USub", u))))
+                out.append(("text", level, X.form_plain(X.unop("UAdd", u))))
+                out.append(("text", level, X.form_plain(X.binop("Sub", X.unop("USub", u), u))))
+                if X.py_kind(x) == "float" or thorough:
+                    out.append(("text", level, X.form_plain(X.binop("Pow", u, X.int_lit(2)))))
+                out.append(("text", level, X.form_cond(X.cmpop("Gt", d, X.int_lit(1)), X.binop("Sub", d, u), X.flt_lit(0.5))))
+            n = X.unop("Not", X.cmpop("Lt", x, X.int_lit(1)))
+            out.append(("text", level, X.form_plain(X.unop("Not", n))))
+            out.append(("text", level, X.form_plain(X.cmpop("Eq", n, X.cmpop("Gt", d, X.int_lit(1))))))
+            out.append(("text", level, X.form_cond(n, X.binop("Sub", d, X.unop("USub", x)), X.flt_lit(2.5))))
+    acc = X.acc_leaf()
+    for x in (X.flt_lit(2.5), X.leaf("jet", "d"), X.binop("Sub", X.leaf("jet", "d"), X.leaf("jet", "i2"))):
+        out.append(("text", "jet", X.form_agg(X.flt_lit(0.5), {"plain": X.binop("Sub", acc, X.unop("USub", x))})))
+    return [c for c in out if pow_safe(c[2]) and f32_safe(c[2]) and X.wide_safe(c[2])]
+
+
+def condx_cases(thorough: bool = True) -> List[Tuple[str, str, Dict[str, Any]]]:
+    """a conditional used INSIDE arithmetic (`(a if t else b) * 2`): the conditional's statements come first, the
+    arithmetic reads its result variable"""
+    out = []
+    for level in ("jet", "evt"):
+        d, i, d2 = X.leaf(level, "d"), X.leaf(level, "i"), X.leaf(level, "d2")
+        t = X.cmpop("Gt", d, X.int_lit(1))
+        for a, b in ((d2, X.flt_lit(0.5)), (X.binop("Div", i, X.int_lit(2)), d2), (X.unop("USub", d2), X.unop("USub", X.flt_lit(1.0))), (i, d2)):
+            for body_of in (
+                lambda R: X.binop("Mult", R, X.int_lit(2)),
+                lambda R: X.binop("Sub", d, X.unop("USub", R)),
+                lambda R: X.binop("Div", X.binop("Add", R, i), X.int_lit(2)),
+                lambda R: X.cmpop("Lt", R, d),
+                lambda R: X.unop("USub", R),
+            )[: 5 if thorough else 3]:
+                out.append(("conditional-in-arithmetic", level, X.form_condx(t, a, b, body_of)))
+    return out
+
+
+def stmt_cases(thorough: bool = True) -> List[Tuple[str, str, Dict[str, Any]]]:
+    """conditionals whose ARMS need statements of their own (First(): a loop, a flag, a throw; Sum(): a loop), used
+    inside arithmetic, at event level.  Bank "J" is never empty on the samples, so Python is defined on every one.
+    These are judged on the values of the g++-compiled job only (both tiers): what an arm's statements do to the
+    if/else around them is not visible in any single emitted expression."""
+    out = []
+    cj, ed, ei = X.count_leaf("J"), X.leaf("evt", "d"), X.leaf("evt", "i")
+    m1 = X.unop("USub", X.flt_lit(1.0))
+    tests = [X.cmpop("Gt", cj, X.int_lit(0)), X.cmpop("Gt", ei, X.int_lit(1)), X.cmpop("Lt", cj, X.int_lit(2))]
+    arms = [
+        (X.first_leaf("d"), m1), (m1, X.first_leaf("d")), (X.first_leaf("d", True), X.flt_lit(0.5)), (X.first_leaf("d"), X.sum_leaf("d")),
+        (X.sum_leaf("d"), X.first_leaf("f")), (X.binop("Mult", X.first_leaf("d"), X.int_lit(2)), ed), (X.sum_leaf("d"), m1),
+    ]
+    bodies = [lambda R: X.binop("Mult", R, X.int_lit(2)), lambda R: X.binop("Sub", ed, X.unop("USub", R)), lambda R: R]
+    for k, (a, b) in enumerate(arms):
+        for j, t in enumerate(tests):
+            if not thorough and (k + j) % 2:
+                continue
+            out.append(("statement-arm", "evt", X.form_condx(t, a, b, bodies[(k + j) % 3])))
     return out
 
 
@@ -528,6 +637,41 @@ def canon_lines(c):
     return {"ty": c["ty"], "lines": strip_assign_cast(c["lines"], types)}
 
 
+def same_tree(ci, cm, m, s) -> bool:
+    """The texts differ, but every emitted expression of the implementation, read the way a C++ compiler reads it
+    (Text.lean readCpp: maximal-munch tokens, C++ precedence), is the tree the model built, and everything that is not
+    an expression (declared types, the shape of the statements) is the same: the property does not tell them apart
+    (theorems text_read, text_norm_meaning)."""
+    if "lines" not in ci or "lines" not in cm or ci["ty"] != cm["ty"] or len(ci["lines"]) != len(cm["lines"]):
+        return False
+    if not isinstance(s, dict) or s.get("trees") is None or m.get("trees") is None:
+        return False
+
+    def uncast(t: str) -> str:
+        # the right-hand side of an assignment to a variable declared T: `static_cast<T>(v)` and `v` store the same
+        # (theorem set_var_cast) - as in strip_assign_cast for the texts
+        for ty in ("double", ci["ty"]):
+            pre = f"static_cast<{ty}>("
+            if t.startswith(pre) and t.endswith(")") and _balanced(t[len(pre):-1]):
+                return t[len(pre):-1]
+        return t
+
+    assigned = len(ci["lines"]) > 1  # a plain column has one line: its fill expression; everything else assigns
+    ts, tm = ([uncast(t) for t in x] if assigned else list(x) for x in (s["trees"], m["trees"]))
+    if ts != tm:
+        return False
+
+    def skeleton(lines):
+        out = []
+        for l in lines:
+            d = real.SCALAR_DECL.match(l)
+            a = real.ASSIGN.match(l)
+            out.append(("decl", d.group(1), d.group(2), d.group(3) is not None) if d else ("assign", a.group(1)) if a else ("if",) if real.IFLINE.match(l) else ("else",) if l == "else" else ("expr",))
+        return out
+
+    return skeleton(ci["lines"]) == skeleton(cm["lines"])
+
+
 def judge(ctx, res, known_stream: bool = False) -> Optional[Dict[str, Any]]:
     """Compare model and implementation, evaluate the Spec on the implementation. Returns a violation dict (not yet
     reported) when the Spec fails on the implementation's output."""
@@ -542,8 +686,13 @@ def judge(ctx, res, known_stream: bool = False) -> Optional[Dict[str, Any]]:
     ci = canon_lines(canon_refusal(real.canon_impl(r)))
     cm = canon_lines(canon_refusal(real.canon_model(m, form)))
     if not known_stream:
-        if ci != cm:
+        if ci != cm and not same_tree(ci, cm, m, s):
             ctx.disagreement("translate", {"level": level, "query": X.query_src(form, level), "form": form}, cm, ci)
+        elif ci != cm:
+            ctx.count("correspondence:different-text-same-tree")
+        # the hypotheses (and, re-run, the conclusion) of theorem text_denotes on the model's own output of this case
+        if "ok" in m and not (m.get("operandsUsable") and m.get("readsBack")):
+            ctx.disagreement("text-theorem-hypotheses", {"level": level, "query": X.query_src(form, level)}, {k: m.get(k) for k in ("operandsUsable", "readsBack", "trees")}, None)
     if "unreadable" in r or "frontend" in r:
         return None
     excluded = bool(s.get("excluded"))
@@ -628,11 +777,109 @@ def run(ctx):
         "defect exclusions (exercised only through known_findings.jsonl; correspondence still checked): % with a real "
         "operand; unary minus on a bool; conditionals (and Max/Min) whose arms are all integer-valued"
     )
-    # 3. thorough: the compiled job
+    # 3. conditionals whose arms need statements: judged on the compiled job in both tiers
+    for v in stmt_family(ctx, stmt_cases(ctx.tier == "thorough")):
+        if v["key"] not in known_keys:
+            ctx.violation(key=v["key"], what=v["what"], case=v["case"], observed=v["observed"], how=HOW)
+    # 4. thorough: the compiled job
     if ctx.tier == "thorough":
         from c13_lib import cxx
 
         cxx.run_compiled(ctx, results, accepted, spec_request, judge_spec, HOW, known_keys)
+
+
+# ------------------------------------------------------------------------------------------------------------ statement arms
+def stmt_family(ctx, cases) -> List[Dict[str, Any]]:
+    """The statement-arm family: every case is translated by the real code, the WHOLE `execute()` body it wrote is
+    compiled by g++ against the mock event data model (one translation unit, one compilation) and run on the samples;
+    the Spec (Lean driver) is evaluated on the values the compiled job stored, CPython's value is compared with evalPy.
+    -> the violations found (not yet reported)."""
+    import shutil
+    import tempfile
+    from pathlib import Path
+
+    from c13_lib import cxx
+
+    viols: List[Dict[str, Any]] = []
+    todo = []
+    for stream, level, form in cases:
+        q = X.form_src(form, level)
+        key = X.form_key(form, level)
+        case = {"level": level, "form": form, "query": q}
+        gen = real.translate_query(q)
+        ctx.count("stream:" + stream)
+        if "frontend" in gen:
+            ctx.count("skipped:func_adl-front-end-refusal")
+            continue
+        sm, desc = samples_for(form, level)
+        if "err" in gen:
+            ctx.count("impl:refused:" + gen["err"])
+            ans = ctx.driver(DRIVER, [{"op": "spec", **clean(form), "impl": {"err": gen["err"]}}])[0]
+            ctx.case(key, False, {"query": q, "implementation": {"err": gen["err"]}})
+            if ans.get("holds") is False:
+                viols.append({"key": key, "what": ans["why"], "case": case, "observed": {"exception": gen["err"], "message": gen.get("msg")}})
+            continue
+        cols = [m for m in (real.COL_DECL.match(l.strip()) for l in gen["h"].split("\n")) if m]
+        body = real.execute_body(gen["cxx"])
+        if len(cols) != 1:
+            ctx.disagreement("statement-arm-unreadable", case, None, f"{len(cols)} column declarations")
+            continue
+        m = cols[0]
+        impl = {"ty": m.group(2) or m.group(1), "body": body, "col_decl": m.group(0), "col_name": m.group(3), "lines": body, "fill": ""}
+        ctx.count("impl:accepted")
+        cps = [cpython_value(form, level, d) for d in desc]
+        valid = [k for k, v in enumerate(cps) if v is not None]
+        ctx.case(key, True, {"query": q, "implementation": {"ty": impl["ty"], "execute": body}})
+        todo.append((len(todo), {"form": form, "level": level, "impl": impl, "samples": sm, "desc": desc, "cpy": cps, "key": key, "case": case}, valid))
+    if not todo:
+        return viols
+    ctx.check_time()
+    workdir = Path(tempfile.mkdtemp(prefix="c13stmt_"))
+    try:
+        o = cxx.build_and_run(workdir, "stmt", todo)
+        if "compile_error" in o and o["bad"]:
+            # cases that do not compile are violations; the others are compiled again without them
+            badidx = {i for i, _ in o["bad"]}
+            for i, msg in o["bad"]:
+                res = todo[i][1]
+                if not any(v["key"] == res["key"] for v in viols):
+                    viols.append({"key": res["key"], "what": f"the generated code does not compile: {msg}", "case": res["case"], "observed": {"column_type": res["impl"]["ty"], "emitted": res["impl"]["body"], "g++": msg}})
+            todo = [t for t in todo if t[0] not in badidx]
+            o = cxx.build_and_run(workdir, "stmt2", todo) if todo else {"rc": 0, "out": ""}
+        if "compile_error" in o:
+            raise RuntimeError("g++ failed on the mock harness itself:\n" + o["compile_error"])
+    finally:
+        shutil.rmtree(workdir, ignore_errors=True)
+    rows = cxx.parse_rows(o["out"])
+    reqs, metas = [], []
+    for idx, res, valid in todo:
+        observed: List[Any] = [None] * len(res["samples"])
+        missing = False
+        for k in valid:
+            vals = rows.get((idx, k))
+            if vals is None or len(vals) != 1:
+                missing = True
+            else:
+                observed[k] = vals[0]
+        if missing:
+            viols.append({"key": res["key"], "what": f"the compiled job stopped (exit status {o['rc']}) or filled no row for an event on which Python computes a value", "case": res["case"], "observed": {"column_type": res["impl"]["ty"], "emitted": res["impl"]["body"], "g++ rows": {str(k): rows.get((idx, k)) for k in valid}}})
+            continue
+        form = res["form"]
+        leaves = [l for l in X.leaves_of(form) if l[0] != "R"] + [["R", "double", X.IF_SLOT]]
+        reqs.append({"op": "spec", **clean(form), "impl": {"ty": res["impl"]["ty"]}, "leaves": leaves, "samples": res["samples"], "observed": observed})
+        metas.append((res, observed))
+    for (res, observed), a in zip(metas, ctx.driver(DRIVER, reqs) if reqs else []):
+        ctx.count("g++:statement-arm-cases-compiled-and-run")
+        if "bad" in a:
+            ctx.disagreement("driver", {"query": res["key"]}, a, None)
+            continue
+        for k, (row, cp) in enumerate(zip(a.get("rows", []), res["cpy"])):
+            if (row["cpy"] or None) != cp:
+                ctx.disagreement("evalPy-vs-CPython", {"query": res["case"]["query"], "sample": k}, row["cpy"], cp)
+                break
+        if a.get("holds") is False and not a.get("excluded"):
+            viols.append({"key": res["key"], "what": "compiled job: " + a["why"], "case": res["case"], "observed": {"column_type": res["impl"]["ty"], "emitted": res["impl"]["body"], "g++ values": observed, "rows": a.get("rows")}})
+    return viols
 
 
 # ------------------------------------------------------------------------------------------------------------ search
@@ -660,6 +907,8 @@ def sub_forms(form) -> List[Dict[str, Any]]:
 
     if form["form"] == "plain":
         out = [X.form_plain(x) for x in shrink_expr(form["e"])]
+    elif form["form"] == "condx":
+        out = [X.form_cond(form["t"], form["a"], form["b"])]
     elif form["form"] == "cond":
         out = [X.form_plain(form["a"]), X.form_plain(form["b"]), X.form_plain(form["t"])]
         out += [X.form_cond(form["t"], a2, form["b"]) for a2 in shrink_expr(form["a"])]
@@ -682,6 +931,11 @@ def search(ctx, broken):
                 best = (size, v, res)
     ctx.broken[:] = saved[0]
     if best is None:
+        for v in stmt_family(ctx, stmt_cases(True)):
+            if v["key"] not in known_keys:
+                ctx.broken[:] = saved[0]
+                return {"key": v["key"], "what": v["what"], "case": v["case"], "observed": v["observed"], "replay_how": HOW}
+        ctx.broken[:] = saved[0]
         return None
     _, v, res = best
     level = res["level"]
@@ -702,6 +956,13 @@ def search(ctx, broken):
 
 def replay(ctx, rep) -> int:
     case = rep["case"]
+    if case["form"].get("form") == "condx" and X.has_first(case["form"]):
+        vs = stmt_family(ctx, [("replay", case["level"], case["form"])])
+        print("query:", case["query"])
+        for v in vs:
+            print("violation:", v["what"])
+            print("observed:", json.dumps(v["observed"])[:3000])
+        return 1 if vs else 0
     res = evaluate_cases(ctx, [("replay", case["level"], case["form"])])[0]
     print("query:", X.query_src(case["form"], case["level"]))
     print("implementation:", json.dumps(real.canon_impl(res["impl"])))
@@ -712,7 +973,11 @@ def replay(ctx, rep) -> int:
 
 
 LEVEL_TEXT = (
-    "Machine-checked proof (Lean 4), for an abstract double with no law assumed: for every expression tree (any depth) over "
+    "Machine-checked proof (Lean 4). Text level: for every expression tree (any depth) the translator accepts, the text it "
+    "writes, tokenised with maximal munch and parsed with C++ operator precedence, is exactly the tree it built - no --/++/+- "
+    "token accident at any join, no precedence capture (text_lex, text_parse, text_read, text_denotes; hypothesis only on the "
+    "operand texts handed in, decidable and checked on every case; counterexamples show each pair of parentheses is needed). "
+    "Value level, for an abstract double with no law assumed: for every expression tree (any depth) over "
     "the property's operators that the translator accepts, the emitted C++ expression evaluates under C++'s conversion rules "
     "to exactly Python's value and is declared int/bool exactly when Python's result is integer-valued, at least as wide as "
     "every operand otherwise (expr_correct_partial, column_correct_partial, int_stays_int, result_wide_enough); the "
@@ -721,13 +986,16 @@ LEVEL_TEXT = (
     "accumulator typing, Count/Sum/Max/Min folds over lists of any length, the conditional, the set_var cast rule, the exact "
     "refusals. Three defect classes are proved as counterexamples and excluded by decidable hypotheses. The model is tied to "
     "the code by text equality of the real translator's output on every table cell and on random trees each run; the Spec "
-    "is evaluated on the implementation's own text (quick) and on the values of the g++-compiled job (thorough)."
+    "is evaluated on the implementation's own text, read by the same verified reader (quick; texts that differ from the "
+    "model's are compared as trees), on the values of the g++-compiled job (thorough), and for conditionals whose arms need "
+    "statements on the compiled execute() body in both tiers."
 )
 LEVEL_NOTE = (
     "Theorem: everything stated over the model (all depths, all values, all list lengths). Sampled: the model's agreement "
     "with the Python source (differential, every cell + random trees per run), evalC's agreement with g++ and evalPy's "
     "with CPython (every sample). Trusted: Lean kernel (axioms audited), the readers of the generated text, g++/libm, "
-    "float32 precision not modelled, int overflow excluded. Exclusions (known findings): % on reals, unary "
+    "float32 precision not modelled, int overflow excluded; the C++ token and expression grammar of Text.lean (subset: "
+    "no casts other than static_cast, no ?:, no assignment - such texts are 'not interpretable', never a verdict). Exclusions (known findings): % on reals, unary "
     "minus on bool, integer-valued conditionals / Max / Min declared double."
 )
 TECHNIQUE = "Lean 4 theorems over a hand model + generated operator/priority tables (translator) + differential correspondence against the real translator, CPython and g++"
